@@ -35,7 +35,7 @@ from ..absint import Interp, Raised, Record, Unsupported, _Return
 from ..astx import call_name, calls_named, dotted, last
 from ..cfg import CFG
 from ..index import AnchorError, FuncNode, Module, enclosing_function, parent, qualname_of, walk_shallow
-from ..selftest import Twin
+from ..selftest import Twin, multi
 
 # =====================================================================================================
 # Part A — sqlmini: the SQL subset used by the repository
@@ -2565,13 +2565,20 @@ def _is_docstring(node: ast.AST) -> bool:
 
 
 def sql_sites(m: Module) -> list[dict]:
+    """SQL text read inside a function: a string literal / f-string written there, or a bare name that reads a module-level
+    string constant (`_module_constant`: bound once, unconditionally, never rebound or shadowed) — the site is then the *use*
+    in the function, the text is the constant's."""
     sites = []
     for node in ast.walk(m.tree):
-        if not isinstance(node, (ast.Constant, ast.JoinedStr)):
+        if isinstance(node, ast.Name) and isinstance(node.ctx, ast.Load) and enclosing_function(node) is not None:
+            v = _module_constant(m, node.id, node)
+            st = _string_text(v) if isinstance(v, ast.Constant) else None  # (an f-string at module level has no function-local holes: not read)
+        elif not isinstance(node, (ast.Constant, ast.JoinedStr)):
             continue
-        if isinstance(parent(node), (ast.JoinedStr, ast.FormattedValue)) or _is_docstring(node):
+        elif isinstance(parent(node), (ast.JoinedStr, ast.FormattedValue)) or _is_docstring(node):
             continue
-        st = _string_text(node)
+        else:
+            st = _string_text(node)
         if st is None:
             continue
         text, holes = st
@@ -2628,8 +2635,9 @@ def _module_constant(m: Module, name: str, at: ast.AST) -> ast.AST | None:
             return None
         if isinstance(n, ast.Subscript) and isinstance(n.ctx, (ast.Store, ast.Del)) and isinstance(n.value, ast.Name) and n.value.id == name:
             return None
-    if not isinstance(value, ast.Tuple):
+    if not isinstance(value, (ast.Tuple, ast.Constant, ast.JoinedStr)):
         # a mutable table (list literal) could be changed through an alias: it may only ever be iterated over
+        # (str / number constants and f-strings are immutable values: reading them anywhere is harmless)
         for n in ast.walk(m.tree):
             if isinstance(n, ast.Name) and n.id == name and isinstance(n.ctx, ast.Load):
                 p = parent(n)
@@ -2897,7 +2905,34 @@ def in_blocks_table_driven(rows: str = IN_TABLE_ROWS, read: str = "getattr(query
     )
 
 
+# The event INSERT of `append_event` with its text moved verbatim into a module-level constant, the payload bound to a local inside
+# the same `with` block, `_connect` as an early `return` after yielding the persistent connection and the notify block as an
+# early return (benign B11_patch_5 shape; shared with the C16/C24 twins).
+EVENT_INSERT_VALUES = "?, COALESCE((SELECT MAX(sequence) FROM events WHERE run_id = ?), -1) + 1, CURRENT_TIMESTAMP, ?"
+
+
+def event_insert_as_constant(cols: str = "run_id, sequence, timestamp, event_json", values: str = EVENT_INSERT_VALUES, args: str = "(run_id, run_id, event_json)",
+                             before: str = "", after_binding: str = "") -> tuple[str, str]:
+    return multi(_PW, [
+        ("_TICK_PAGE_SIZE = 100\n",
+         f'_TICK_PAGE_SIZE = 100\n\n_INSERT_EVENT_SQL = """INSERT INTO events ({cols})\n                VALUES ({values})"""\n{after_binding}'),
+        ('            conn.execute(\n                """INSERT INTO events (run_id, sequence, timestamp, event_json)\n'
+         '                VALUES (?, COALESCE((SELECT MAX(sequence) FROM events WHERE run_id = ?), -1) + 1, CURRENT_TIMESTAMP, ?)""",\n'
+         "                (\n                    run_id,\n                    run_id,\n                    event.model_dump_json(),\n                ),\n            )\n",
+         f"            event_json = event.model_dump_json()\n{before}            conn.execute(_INSERT_EVENT_SQL, {args})\n"),
+        ("            yield self._persistent_conn\n        else:\n            conn = sqlite3.connect(self.db_path, timeout=30.0)\n            try:\n                yield conn\n"
+         "            finally:\n                conn.close()\n",
+         "            yield self._persistent_conn\n            return\n\n        conn = sqlite3.connect(self.db_path, timeout=30.0)\n        try:\n            yield conn\n"
+         "        finally:\n            conn.close()\n"),
+        ("        if condition is not None:\n            async with condition:\n                condition.notify_all()\n\n    async def query_events",
+         "        if condition is None:\n            return\n        async with condition:\n            condition.notify_all()\n\n    async def query_events"),
+    ])
+
+
 TWINS = [
+    # ---- R3: statement text in a module-level string constant
+    Twin("benign: event INSERT text in a module-level constant, payload in a local", _PW, *event_insert_as_constant(), None),
+    Twin("module-level INSERT constant names a column no script creates", _PW, *event_insert_as_constant(cols="run_id, sequence, timestamp, payload_json"), "C28.R3"),
     # ---- R3: table-driven filters over a module-level constant
     Twin("benign: IN filters driven by a module-level table of (column, attribute) pairs", _PW, IN_BLOCKS_OLD, in_blocks_table_driven(), None),
     Twin("benign: module-level table is a list literal", _PW, IN_BLOCKS_OLD, in_blocks_table_driven(table="[{rows}]"), None),
